@@ -2,6 +2,15 @@
 
 package wire
 
+import (
+	"encoding/hex"
+	"fmt"
+	"net"
+	"os"
+	"sync"
+	"sync/atomic"
+)
+
 // Verification hooks (build tag verif). A hook is a named point in the code at
 // which an external harness is told that the calling goroutine has arrived; the
 // harness may block the call to control the schedule. Without the tag the
@@ -19,4 +28,73 @@ func verifPoint(point string, subject any) {
 	if fn := verifHook; fn != nil {
 		fn(point, subject)
 	}
+}
+
+// verifConn wraps an accepted connection with a recorder when the environment
+// variable PSQLWIRE_VERIF_TRACE names a directory: every Read and Write that
+// returns is appended, in order, to one file per connection. The recording is
+// used to check conversations produced by arbitrary clients (the repository's
+// own tests included) against the protocol specification.
+func verifConn(conn net.Conn) net.Conn {
+	dir := os.Getenv("PSQLWIRE_VERIF_TRACE")
+	if dir == "" {
+		return conn
+	}
+
+	n := verifConnSeq.Add(1)
+	file, err := os.Create(fmt.Sprintf("%s/conn-%d-%06d.ndjson", dir, os.Getpid(), n))
+	if err != nil {
+		return conn
+	}
+
+	return &verifRecorder{Conn: conn, file: file}
+}
+
+var verifConnSeq atomic.Int64
+
+type verifRecorder struct {
+	net.Conn
+	mu   sync.Mutex
+	file *os.File
+}
+
+func (r *verifRecorder) record(dir string, b []byte, err error) {
+	r.mu.Lock()
+	defer r.mu.Unlock()
+	if r.file == nil {
+		return
+	}
+
+	if len(b) > 0 {
+		fmt.Fprintf(r.file, "{\"d\":%q,\"hex\":%q}\n", dir, hex.EncodeToString(b))
+	}
+
+	if err != nil {
+		fmt.Fprintf(r.file, "{\"d\":%q,\"err\":%q}\n", dir, err.Error())
+	}
+}
+
+func (r *verifRecorder) Read(b []byte) (int, error) {
+	n, err := r.Conn.Read(b)
+	r.record("r", b[:n], err)
+	return n, err
+}
+
+func (r *verifRecorder) Write(b []byte) (int, error) {
+	n, err := r.Conn.Write(b)
+	r.record("w", b[:n], err)
+	return n, err
+}
+
+func (r *verifRecorder) Close() error {
+	err := r.Conn.Close()
+	r.mu.Lock()
+	defer r.mu.Unlock()
+	if r.file != nil {
+		fmt.Fprintf(r.file, "{\"d\":\"close\"}\n")
+		r.file.Close()
+		r.file = nil
+	}
+
+	return err
 }
